@@ -49,27 +49,38 @@ func makePayload(r *rand.Rand, kind string, n int) []byte {
 	b := make([]byte, n)
 	switch kind {
 	case "random":
-		r.Read(b)
+		fillRandom(r, b)
 	case "zeros":
 	case "repeat":
 		p := make([]byte, 1+r.Intn(300))
 		r.Read(p)
-		for i := range b {
-			b[i] = p[i%len(p)]
-		}
+		fillPattern(b, p)
 	case "text":
+		// a few KiB of random words, then long-distance repetition with fresh words in between
 		i := 0
-		for i < n {
+		for i < n && i < 8192 {
 			i += copy(b[i:], words[r.Intn(len(words))])
+		}
+		for i < n {
+			if r.Intn(4) == 0 {
+				i += copy(b[i:], words[r.Intn(len(words))])
+				continue
+			}
+			off := r.Intn(i)
+			l := 1 + r.Intn(4096)
+			if off+l > i {
+				l = i - off
+			}
+			i += copy(b[i:], b[off:off+l])
 		}
 	case "compressed":
 		// the output of a (reference, unpooled) deflate stream over text: high entropy with structure
 		var out bytes.Buffer
 		w, _ := flate.NewWriter(&out, flate.BestSpeed)
 		for out.Len() < n {
-			t := makePayload(r, "text", 4096+n/2)
+			t := makePayload(r, "text", 4096+n/4)
 			// vary the text so that the stream does not collapse into back references
-			for k := 0; k < len(t); k += 1 + r.Intn(40) {
+			for k := 0; k < len(t); k += 1 + r.Intn(64) {
 				t[k] = byte(r.Intn(256))
 			}
 			w.Write(t)
@@ -84,12 +95,9 @@ func makePayload(r *rand.Rand, kind string, n int) []byte {
 				l = n - i
 			}
 			if r.Intn(2) == 0 {
-				r.Read(b[i : i+l])
+				fillRandom(r, b[i:i+l])
 			} else {
-				c := byte(r.Intn(256))
-				for k := i; k < i+l; k++ {
-					b[k] = c
-				}
+				fillByte(b[i:i+l], byte(r.Intn(256)))
 			}
 			i += l
 		}
@@ -98,7 +106,7 @@ func makePayload(r *rand.Rand, kind string, n int) []byte {
 }
 
 var payloadKinds = []string{"random", "zeros", "repeat", "text", "compressed", "mixed"}
-var bigSizes = []int{1 << 20, 2<<20 + 1, 4<<20 - 1, 8 << 20}
+var bigSizes = []int{1 << 20, 1<<20 + 1, 2<<20 - 1, 3 << 20, 4<<20 + 1}
 
 func pickSize(r *rand.Rand) int {
 	x := r.Intn(100)
@@ -109,7 +117,7 @@ func pickSize(r *rand.Rand) int {
 		return 1 + r.Intn(16)
 	case x < 30:
 		return 1<<uint(5+r.Intn(14)) - 1 + r.Intn(3) // 2^k-1 … 2^k+1, k=5..18 (block sizes 32K/64K/128K included)
-	case x < 72:
+	case x < 85:
 		return 17 + r.Intn(65536)
 	default:
 		return 65536 + r.Intn(512*1024-65536)
@@ -128,6 +136,9 @@ func specFor(runSeed int64, b compBatch, g, j int) tripSpec {
 		s.Comp = compNames[k%3]
 		s.Kind = []string{"random", "repeat", "compressed", "mixed", "text", "zeros"}[(k/3)%6]
 		s.Size = bigSizes[(k/18+k/3+b.Batch)%len(bigSizes)]
+		if k%12 == b.Batch%12 {
+			s.Size = 8 << 20
+		}
 	} else {
 		s.Comp = compNames[r.Intn(3)]
 		s.Kind = payloadKinds[r.Intn(len(payloadKinds))]
